@@ -1,9 +1,258 @@
 import Driver.Util
+import MpcVerif.Model.Iknp
+import MpcVerif.Model.Cot
 
 namespace Drv.C06
+open Mpc Drv Mpc.Iknp
 
-/-- Line-protocol handler of property C06 (stub). -/
-def handle (_args : List String) : String := "bad-op"
+def hexDigit (n : Nat) : Char := if n < 10 then Char.ofNat (48 + n) else Char.ofNat (87 + n)
+
+def hexBytes (b : Bytes) : String :=
+  b.foldl (fun s x => (s.push (hexDigit (x.toNat / 16))).push (hexDigit (x.toNat % 16))) ""
+
+def chunksHex (cs : List Bytes) : String :=
+  if cs.isEmpty then "-" else ",".intercalate (cs.map fun c => if c.size = 0 then "." else hexBytes c)
+
+def labelsHex (ls : List Label) : String :=
+  if ls.isEmpty then "-" else String.join (ls.map hex128)
+
+def wordHex (w : BitVec 64) : String := Id.run do
+  let mut s := ""
+  for i in [0:16] do
+    s := s.push (hexDigit ((w.toNat >>> (4 * (15 - i))) % 16))
+  return s
+
+def wordsHex (ws : Words) : String :=
+  if ws.size = 0 then "-" else String.join (ws.toList.map wordHex)
+
+def toBytes (b : ByteArray) : Bytes := mk b.size fun k => BitVec.ofNat 8 (b[k]!).toNat
+
+def parseWords (s : String) : Option Words :=
+  if s == "-" then some #[] else do
+    let b ← Aes.bytesOfHex s
+    if b.size % 8 ≠ 0 then none else
+    some (mk (b.size / 8) fun i => Id.run do
+      let mut n := 0
+      for t in [0:8] do
+        n := (n <<< 8) ||| (b[8 * i + t]!).toNat
+      return BitVec.ofNat 64 n)
+
+/-- Key-stream bytes consumed per column by a call with `n` rows. -/
+def colBytes (n : Nat) : Nat := (n / 512) * 64 + ((n % 512) + 7) / 8
+
+/-- AES-CTR key stream (zero IV) of an `ot.Label` key: `newPrg`. -/
+def stream (key : ByteArray) (ofs : Nat) (total : Nat) : Bytes :=
+  match Aes.Cipher.new (key.extract ofs (ofs + 16)) with
+  | none => #[]
+  | some c => toBytes (Aes.ctrStream c 0#128 total)
+
+inductive Batch where
+  | labels (mal : Bool) (n : Nat) (b : Array Bool)
+  | bits (n : Nat) (ch : Words)
+
+def Batch.cols : Batch → Nat
+  | .labels mal n _ => colBytes n + (if mal then 32 else 0)
+  | .bits n _ => colBytes n
+
+def parseBatch (s : String) : Option Batch := do
+  let kind ← s.toList.head?
+  match ((s.drop 1).toString.splitOn ":") with
+  | [n, payload] =>
+    let n ← n.toNat?
+    if kind == 'B' then
+      some (.bits n (← parseWords payload))
+    else if kind == 'L' || kind == 'M' then
+      let b := (parseBits payload).toArray
+      if b.size ≠ n then none else some (.labels (kind == 'M') n b)
+    else none
+  | _ => none
+
+structure St where
+  rs : RecvSt
+  ss : SendSt
+  rpos : Nat   -- read position on the receiver's random tape
+
+/-- One call on the pair (`Iknp.runCall`, the function the theorems of
+Props/C06.lean are about); `none` = the model takes an error branch. -/
+def runBatch (R0 R1 SS : Nat → Nat → Byte) (delta : Label) (rtape : ByteArray) (st : St) :
+    Batch → Option (St × String)
+  | .labels false _ b =>
+    match runCall R0 R1 SS delta st.rs st.ss (.labels false b 0#128 0#128) with
+    | some (rs', ss', o, u) =>
+      some ({ st with rs := rs', ss := ss' }, s!"L:u={chunksHex u}/s={labelsHex o.sentL}/r={labelsHex o.rcvdL}")
+    | none => none
+  | .labels true _ b =>
+    if rtape.size < st.rpos + 48 then none else
+    let b0 := label128 rtape st.rpos
+    let b1 := label128 rtape (st.rpos + 16)
+    match runCall R0 R1 SS delta st.rs st.ss (.labels true b b0 b1) with
+    | some (rs', ss', o, u) =>
+      some ({ rs := rs', ss := ss', rpos := st.rpos + 48 },
+        s!"M:u={chunksHex u}/s={labelsHex o.sentL}/r={labelsHex o.rcvdL}")
+    | none => none
+  | .bits n ch =>
+    match runCall R0 R1 SS delta st.rs st.ss (.bits n ch) with
+    | some (rs', ss', o, u) =>
+      some ({ st with rs := rs', ss := ss' }, s!"B:u={chunksHex u}/s={wordsHex o.sentW}/r={wordsHex o.rcvdW}")
+    | none => none
+
+def runBatches (R0 R1 SS : Nat → Nat → Byte) (delta : Label) (rtape : ByteArray) :
+    St → List Batch → Option (List String)
+  | _, [] => some []
+  | st, b :: bs =>
+    match runBatch R0 R1 SS delta rtape st b with
+    | none => none
+    | some (st', s) => (runBatches R0 R1 SS delta rtape st' bs).map (s :: ·)
+
+/-- Streams of an initialised pair from the two random tapes: the receiver's
+`wires[i].L0/L1` are the first 256 labels of its tape, `Delta` the first label
+of the sender's; the (ideal) base OT hands the sender `L_{Delta.Bit(i)}`. -/
+structure Pair where
+  delta : Label
+  r0 : Array Bytes
+  r1 : Array Bytes
+
+def Pair.R0 (p : Pair) (i pos : Nat) : Byte := bget (p.r0.getD i #[]) pos
+def Pair.R1 (p : Pair) (i pos : Nat) : Byte := bget (p.r1.getD i #[]) pos
+def Pair.SS (p : Pair) (i pos : Nat) : Byte := if labelBit p.delta i then p.R1 i pos else p.R0 i pos
+
+def mkPair (stape rtape : ByteArray) (total : Nat) : Option Pair :=
+  if stape.size < 16 || rtape.size < 2 * K * 16 then none else
+  some { delta := label128 stape 0,
+         r0 := mk K fun i => stream rtape (32 * i) total,
+         r1 := mk K fun i => stream rtape (32 * i + 16) total }
+
+/-- `iknp <base> <transport> <stape> <rtape> <batches>` -/
+def handleIknp (stape rtape batches : String) : String :=
+  match Aes.bytesOfHex stape, Aes.bytesOfHex rtape, (batches.splitOn ";").mapM parseBatch with
+  | some stape, some rtape, some bs =>
+    let total := (bs.map Batch.cols).foldl (· + ·) 0
+    match mkPair stape rtape total with
+    | none => "error"
+    | some p =>
+      match runBatches p.R0 p.R1 p.SS p.delta rtape ⟨RecvSt.init, SendSt.init, 2 * K * 16⟩ bs with
+      | none => "error"
+      | some outs => ";".intercalate outs
+  | _, _, _ => "bad-op"
+
+/-! ### COT / ROT -/
+
+open Mpc.Cot in
+def aesPi (key x : Label) : Label :=
+  match Aes.Cipher.new (Aes.bytesOfNat128 key.toNat) with
+  | none => 0#128
+  | some c => c.encrypt128 x
+
+def parseLabels (s : String) : Option (Array Label) :=
+  if s == "-" then some #[] else do
+    let b ← Aes.bytesOfHex s
+    if b.size % 16 ≠ 0 then none else some (mk (b.size / 16) fun i => label128 b (16 * i))
+
+structure CBatch where
+  flags : Array Bool
+  wires : Array Cot.Wire
+
+def parseCBatch (s : String) : Option CBatch :=
+  match s.splitOn ":" with
+  | [f, w] => do
+    let ls ← parseLabels w
+    let flags := (parseBits f).toArray
+    some { flags := flags, wires := mk flags.size fun i => (Cot.lget ls (2 * i), Cot.lget ls (2 * i + 1)) }
+  | _ => none
+
+def wiresHex (ws : Array Cot.Wire) : String :=
+  if ws.size = 0 then "-" else String.join (ws.toList.map fun w => hex128 w.1 ++ hex128 w.2)
+
+structure CSt where
+  rs : RecvSt
+  ss : SendSt
+  rpos : Nat
+  spos : Nat
+
+def runCBatch (rot mal : Bool) (p : Pair) (stape rtape : ByteArray) (st : CSt) (b : CBatch) :
+    Option (CSt × String) :=
+  let n := b.flags.size
+  -- IKNP phase
+  let iknp : Option (RecvSt × SendSt × List Label × List Label × List Bytes × Nat) :=
+    if mal then
+      if rtape.size < st.rpos + 48 then none else
+      let r := receiveMal p.R0 p.R1 st.rs b.flags (label128 rtape st.rpos) (label128 rtape (st.rpos + 16))
+      match sendMal p.SS p.delta st.ss n r.2.2 with
+      | some (ss', sent, []) => some (r.1, ss', sent, r.2.1, r.2.2, st.rpos + 48)
+      | _ => none
+    else
+      let r := receive p.R0 p.R1 st.rs b.flags
+      match send p.SS p.delta st.ss n r.2.2 with
+      | some (ss', sent, []) => some (r.1, ss', sent, r.2.1, r.2.2, st.rpos)
+      | _ => none
+  match iknp with
+  | none => none
+  | some (rs', ss', data, rcvd, u, rpos') =>
+    if stape.size < st.spos + 16 then none else
+    let seed := label128 stape st.spos
+    let st' : CSt := { rs := rs', ss := ss', rpos := rpos', spos := st.spos + 16 }
+    if rot then
+      match Cot.rotSend aesPi p.delta seed data.toArray b.wires, Cot.rotRecv aesPi seed b.flags rcvd.toArray with
+      | some w, some out =>
+        some (st', s!"u={chunksHex u}/c={hex128 seed}/w={wiresHex w}/r={labelsHex out.toList}")
+      | _, _ => none
+    else
+      match Cot.cotSend aesPi p.delta seed data.toArray b.wires with
+      | none => none
+      | some cts =>
+        match Cot.cotRecv aesPi seed b.flags rcvd.toArray cts with
+        | none => none
+        | some out => some (st', s!"u={chunksHex u}/c={hex128 seed}{String.join (cts.map hex128)}/w=-/r={labelsHex out.toList}")
+
+def runCBatches (rot mal : Bool) (p : Pair) (stape rtape : ByteArray) : CSt → List CBatch → Option (List String)
+  | _, [] => some []
+  | st, b :: bs =>
+    match runCBatch rot mal p stape rtape st b with
+    | none => none
+    | some (st', s) => (runCBatches rot mal p stape rtape st' bs).map (s :: ·)
+
+/-- `cot <c|r> <mal> <base> <transport> <stape> <rtape> <batches>` -/
+def handleCot (kind mal stape rtape batches : String) : String :=
+  match Aes.bytesOfHex stape, Aes.bytesOfHex rtape, (batches.splitOn ";").mapM parseCBatch with
+  | some stape, some rtape, some bs =>
+    let mal := mal == "1"
+    let total := (bs.map fun b => colBytes b.flags.size + (if mal then 32 else 0)).foldl (· + ·) 0
+    match mkPair stape rtape total with
+    | none => "error"
+    | some p =>
+      match runCBatches (kind == "r") mal p stape rtape ⟨RecvSt.init, SendSt.init, 2 * K * 16, 16⟩ bs with
+      | none => "error"
+      | some outs => ";".intercalate outs
+  | _, _, _ => "bad-op"
+
+/-- `mitccrh <seed> <batchSize> <k.h.labels;...>` -/
+def handleMitccrh (seed bsz calls : String) : String :=
+  match parseLabels seed, bsz.toNat? with
+  | some sd, some bsz =>
+    let rec go (m : Cot.Mitccrh) : List String → Option (List String)
+      | [] => some []
+      | c :: cs =>
+        match c.splitOn "." with
+        | [k, h, ls] =>
+          match k.toNat?, h.toNat?, parseLabels ls with
+          | some k, some h, some blks =>
+            match m.hash aesPi blks k h with
+            | none => none
+            | some (m', out) => (go m' cs).map (labelsHex out.toList :: ·)
+          | _, _, _ => none
+        | _ => none
+    match go (Cot.Mitccrh.new (Cot.lget sd 0) bsz) (calls.splitOn ";") with
+    | none => "error"
+    | some outs => ";".intercalate outs
+  | _, _ => "bad-op"
+
+/-- Line-protocol handler of property C06. -/
+def handle (args : List String) : String :=
+  match args with
+  | ["iknp", _base, _transport, stape, rtape, batches] => handleIknp stape rtape batches
+  | ["cot", kind, mal, _base, _transport, stape, rtape, batches] => handleCot kind mal stape rtape batches
+  | ["mitccrh", seed, bsz, calls] => handleMitccrh seed bsz calls
+  | _ => "bad-op"
 
 end Drv.C06
 
